@@ -29,6 +29,34 @@ def fast_scrypt(password, salt):
     return hashlib.sha256(password + salt).digest()
 
 
+# public keys that are not curve points (nobody can spend what is paid to them): an arbitrary one and the all-zero key
+GARBAGE_KEYS = (b"\x05" * 64, b"\x00" * 64)
+
+
+def keyless_signature_for(message, pk_bytes):
+    """the first small k whose pair python-ecdsa itself would accept for this 'key' if it skipped the on-curve check"""
+    for k in range(2, 200):
+        sig = keyless_signature(message, k)
+        try:
+            vk = ecdsa.VerifyingKey.from_string(pk_bytes, curve=ecdsa.SECP256k1, validate_point=False)
+            if vk.verify(sig, message):
+                return sig
+        except Exception:
+            continue
+    return keyless_signature(message, 7)
+
+
+def keyless_signature(message, k=7):
+    """a pair (r, s) = ((kG).x, sha1(message)/k) — what verifies under a 'key' whose point arithmetic degenerates (the
+    all-zero key treated as the identity) if the point is never checked to lie on the curve; no private key involved"""
+    import hashlib as _h
+    g, n = ecdsa.SECP256k1.generator, ecdsa.SECP256k1.order
+    z = int.from_bytes(_h.sha1(message).digest(), "big")
+    r = (g * k).x() % n
+    sv = (z * pow(k, -1, n)) % n
+    return r.to_bytes(32, "big") + sv.to_bytes(32, "big")
+
+
 HALVING = [1_050_000]      # the halving interval in force (documented value unless a run shortens it)
 
 
@@ -262,6 +290,8 @@ class Tree:
         k = self.rng.randrange(1, min(max_in, len(cands)) + 1)
         chosen = cands[:k]
         total = sum(o.value for _, o in chosen)
+        if total == 0:
+            return None               # only zero-valued outputs picked: nothing can be paid out of them
         fee = min(self.rng.choice(fee_choices), total - 1)
         rest = total - fee
         n_out = self.rng.randrange(1, 4)
@@ -298,7 +328,14 @@ class Tree:
         n_data = 0 if r_ < 0.35 else self.rng.choice([1, 58, 59, 60, 199, 200]) if r_ < 0.6 else self.rng.randrange(0, 201)
         data = bytes(self.rng.getrandbits(8) for _ in range(n_data))
         try:
-            b = mine(self.cs, parent_hash, txs, miner_pk, ts, data=data)
+            shape = self.rng.random()
+            if shape < 0.15 and not _retry:
+                # a reward of another legal shape than the node's own assembler produces: several outputs, one of them of
+                # value zero (reward outputs are not range-checked, only their sum is bounded), or claiming less than allowed
+                b = self.mine_shaped(parent_hash, txs, miner_pk, ts, data, "zero_extra" if shape < 0.08 else
+                                     ("split" if shape < 0.12 else "under"))
+            else:
+                b = mine(self.cs, parent_hash, txs, miner_pk, ts, data=data)
         except RuntimeError:
             raise
         except Exception as e:
@@ -328,6 +365,32 @@ class Tree:
         self.blocks.append(b)
         self.audit(b)
         return b
+
+    def mine_shaped(self, parent_hash, txs, miner_pk, ts, data, shape):
+        v = view(self.cs, parent_hash)
+        parent = self.cs.block_by_hash[parent_hash]
+        h = parent.height + 1
+        u = self.own[parent_hash]
+        fees = sum(sum(u[i.output_reference].value for i in t.inputs) - sum(o.value for o in t.outputs) for t in txs)
+        total = subsidy(h) + fees
+        other = self.keys.pk(self.rng.randrange(0, len(self.keys.pks)))
+        if shape == "zero_extra" or total < 4:
+            outs = [Output(total, miner_pk), Output(0, other)]
+            if self.rng.random() < 0.5:
+                outs.reverse()
+        elif shape == "split":
+            outs = [Output(total - 1, miner_pk), Output(1, other)]
+        else:
+            outs = [Output(total - 3, miner_pk)]
+        cb = Transaction([Input(OutputReference(b"\x00" * 32, 0), CoinbaseData(h, data))], outs)
+        all_txs = [cb] + list(txs)
+        for nonce in range(200000):
+            s = consensus.construct_minable_summary(v, all_txs, ts, nonce)
+            ev = consensus.construct_pow_evidence(v, s, h, all_txs)
+            b = Block(BlockHeader(s, ev), all_txs)
+            if b.hash() < b.target:
+                return b
+        raise RuntimeError("no nonce found")
 
     def adopt(self, b):
         """a valid block produced elsewhere (the node's miner) joins the tree"""
